@@ -44,8 +44,9 @@ TraceStep ==
        IF e.a = "reset"
        THEN Reset
        ELSE /\ \/ /\ e.a = "env.cancel" /\ CtxCancel(e.p)
+               \/ /\ e.a = "env.pcancel" /\ ParentCancel
                \/ /\ e.a \in FaultGates /\ pc[e.p] = BaseGate(e.a) /\ Fault(e.p)
-               \/ /\ e.a \notin FaultGates /\ e.a # "env.cancel" /\ pc[e.p] = e.a /\ Step(e.p)
+               \/ /\ e.a \notin FaultGates /\ e.a \notin {"env.cancel", "env.pcancel"} /\ pc[e.p] = e.a /\ Step(e.p)
             /\ Post(e)
 
 TraceSpec == TraceInit /\ [][TraceStep]_<<vars, l>>
